@@ -1,10 +1,27 @@
+/-
+  Helper lemmas for C05 (constraint assembly agrees with MuJoCo C).
+
+  Part A (K = ℝ): `_efc_row` in closed form (`efc_row_code`: `tcCode`, `kCode`, `bCode`, `impCode`, `sigCode`), the
+          real-power facts behind the two-branch sigmoid, and the comparison with `Spec/Impedance.lean`
+          (`impCode_eq_spec`, `kCode_eq_spec`, `bCode_eq_spec`, `pyramid_D_arith`).
+  Part B (any K): `contrib arr idx ws` = what a thread's write list atomically adds to an integer cell; simp lemmas
+          pushing it through `++`, `if`, the loop shapes of the generated kernels (same scheme as `AllW`/`AnyW` of
+          `Lemmas/C16.lean`, which is reused); `CountsAs` = "this thread counts as a request of k rows of class ctr";
+          tactic `csimp`.
+  Kernel-specific lemmas: `Lemmas/C05Kernels.lean` (generated statements), `C05Contact.lean`, `C05Update.lean`;
+  launch level: `C05Layout.lean`.
+-/
 import MjwVerif.Lemmas.Real
 import MjwVerif.Lemmas.C16
 import MjwVerif.Spec.Impedance
 import MjwVerif.Gen.Constraint
+set_option linter.unusedSimpArgs false
+set_option linter.unusedVariables false
 
 namespace Mjw.Lemmas.C05
 open Mjw
+
+theorem iand0 : Mjw.iand 0 4096 = 0 := by decide
 
 @[simp] theorem spow (a b : ℝ) : Scalar.pow a b = a ^ b := rfl
 
@@ -241,6 +258,30 @@ theorem bCode_eq_spec (dis : Int) (dt : ℝ) (sr : V2 ℝ) (dmax : ℝ)
     have : (1e-15 : ℝ) ≤ dmax := by linarith
     rw [max_eq_right this]
 
+
+/-- pyramidal contacts: folding `2 μ² / impratio` into the inverse weight BEFORE the `mjMINVAL` clamp (the code) gives
+    MuJoCo's `1 / Rpy` when neither clamp is active -/
+theorem pyramid_D_arith (tran mu s impratio imp : ℝ) (hs : s * s = 1 / impratio)
+    (hir : (1e-15 : ℝ) ≤ impratio)
+    (hR0 : (1e-15 : ℝ) ≤ (1 - imp) * (tran + mu * mu * tran) / imp)
+    (hRpy : (1e-15 : ℝ) ≤ (1 - imp) * (((((tran + mu * mu * tran) * 2) * mu) * mu * s) * s) / imp) :
+    1 / max (1e-15 : ℝ) ((1 - imp) * (((((tran + mu * mu * tran) * 2) * mu) * mu * s) * s) / imp)
+      = 1 / Spec.Impedance.pyramidR (Spec.Impedance.regR imp (Spec.Impedance.diagApproxPyramid tran mu)) mu impratio := by
+  unfold Spec.Impedance.pyramidR Spec.Impedance.regR Spec.Impedance.diagApproxPyramid
+  simp only [Spec.Impedance.mjMINVAL, lit_1_m15, lit_1_0, lit_2_0, smax, hadd, hsub, hmul, hdiv, ssqrt]
+  rw [max_eq_right hR0, max_eq_right hir, max_eq_right hRpy]
+  have hR0pos : 0 < (1 - imp) * (tran + mu * mu * tran) / imp := lt_of_lt_of_le (by norm_num) hR0
+  have hipos : 0 < impratio := lt_of_lt_of_le (by norm_num) hir
+  set R0 := (1 - imp) * (tran + mu * mu * tran) / imp with hR0def
+  have e1 : R0 / impratio / R0 = 1 / impratio := by field_simp
+  rw [e1]
+  have hsq : Real.sqrt (1 / impratio) * Real.sqrt (1 / impratio) = 1 / impratio :=
+    Real.mul_self_sqrt (by positivity)
+  have e2 : 2 * (mu * Real.sqrt (1 / impratio)) * (mu * Real.sqrt (1 / impratio)) * R0
+      = 2 * mu * mu * (Real.sqrt (1 / impratio) * Real.sqrt (1 / impratio)) * R0 := by ring
+  rw [e2, hsq, ← hs]
+  congr 1
+  rw [hR0def]; ring
 
 /-! ## Counter contributions of a thread
 
